@@ -124,12 +124,21 @@ def run(prop, tier, replay=None):
                         f.write(json.dumps(c) + "\n")
                 pp, _ = C.run([race, "proxy", "-cases", pc, "-out", ptr, "-seed", str(sd)], timeout=3000, env=dict(os.environ, GORACE="halt_on_error=0"))
                 stat["proxied_calls_race_build"] += len(pcases)
-                if "WARNING: DATA RACE" in pp.stdout:
-                    C.write_replay(prop, "DataRaceProxy-seed%d" % sd, dict(property=prop, formula="DataRace", seed=sd, report=pp.stdout[-12000:]))
+                # (every report of the run is classified: the forwarder's pump running after the forwarder returned - F54, the race
+                # detector's view of F51 - is a known finding; any other report is a violation)
+                reports = [r for r in pp.stdout.split("==================") if "WARNING: DATA RACE" in r]
+                pump = [r for r in reports if "createConnHandler.func1.1" in r and ("serveGRPC.func1" in r or "sync.(*WaitGroup)" in r)]
+                for r in pump:
+                    kf = C.match_finding(C.load_findings(), prop, dict(module="Proxy", formula="DataRace", site="pump-after-return"))
+                    if kf:
+                        known[kf["id"]] += 1
+                other_reports = [r for r in reports if r not in pump] if C.match_finding(C.load_findings(), prop, dict(module="Proxy", formula="DataRace", site="pump-after-return")) else reports
+                if other_reports:
+                    C.write_replay(prop, "DataRaceProxy-seed%d" % sd, dict(property=prop, formula="DataRace", seed=sd, report="==================".join(other_reports)[-12000:]))
                     viol[("DataRace", "proxy")] = dict(property=prop, formula="DataRace", seed=sd, cases=[], more=0, signature=dict(module="Proxy", formula="DataRace"),
-                                                      what="race detector report on proxied calls (seed %d): %s" % (sd, pp.stdout[pp.stdout.index("WARNING: DATA RACE"):][:500].replace("\n", " | ")),
+                                                      what="race detector report on proxied calls (seed %d): %s" % (sd, other_reports[0][other_reports[0].index("WARNING: DATA RACE"):][:500].replace("\n", " | ")),
                                                       replay_driver="proxy")
-                elif pp.returncode != 0:
+                elif pp.returncode != 0 and not reports:
                     raise C.Infra("proxy driver (race build) failed:\n" + pp.stdout[-3000:])
                 # ... and what the interceptor's stream wrapper noticed: a forwarder that has returned must have stopped
                 # using the stream (Proxy.tla NoPumpOutlivesHandler)
